@@ -1295,7 +1295,7 @@ def call_def(x, st, f: V, pos, kw, node, chain):
     tag, fn, fchain, fmod = f.t
     c = x.reg.by_node.get(id(fn)) if tag == "def" else None
     name = getattr(fn, "name", "<lambda>")
-    if c is not None and not c.inline and not (x.c.target == c.target and False):
+    if c is not None and not c.inline and c.target not in x.c.inline_targets:
         return apply_contract(x, st, c, fn, pos, kw, node, chain)
     x.log_call(st, name, pos, None, kw)
     if x.mode == "frame":
@@ -1309,7 +1309,7 @@ def call_def(x, st, f: V, pos, kw, node, chain):
         x.frame_calls = getattr(x, "frame_calls", set())
         x.frame_calls.add(key or name)
         return out
-    if x.depth >= x.MAX_INLINE_DEPTH:
+    if x.depth >= max(x.MAX_INLINE_DEPTH, getattr(x.c, "inline_depth", 0)):
         raise OutOfReach(f"inline depth exceeded at {name}")
     return inline(x, st, f, pos, kw, node)
 
